@@ -18,6 +18,8 @@ PROGRAMS = {
     "unnamed": ["        ORG $3F00\n", "START   LDX #$1234\n", "        RTS\n", "        END START\n"],
     "noorg": ["        NAM NOORG\n", "        CLRA\n", "        RTS\n"],
     "longname": ["        NAM averylongname\n", "        ORG $7000\n", "        NOP\n", "        RTS\n"],
+    "namlate": ["        ORG $2000\n", "BEGIN   LDA #$41\n", "        NAM later\n", "        STA $0400\n", "        RTS\n"],
+    "namlast": ["        ORG $2100\n", "        CLRA\n", "        RTS\n", "        NAM tail\n"],
     "bad": ["        ORG $0E00\n", "        LDA #$41\n", "        FOO 12\n"],
     "undefined": ["        ORG $0E00\n", "        JMP NOWHERE\n"],
 }
@@ -84,7 +86,7 @@ class CliAssembler:
         for t in ("bin", "cas", "dsk"):
             for ap in (False, True):
                 for pre in PRE:
-                    for prog in (("named", "unnamed") if tier == "quick" else ("named", "unnamed", "noorg", "longname")):
+                    for prog in (("named", "unnamed", "namlate") if tier == "quick" else ("named", "unnamed", "noorg", "longname", "namlate", "namlast")):
                         if prog != "named" and pre not in ("absent", "cas", "dsk"):
                             continue
                         out.append({"id": "asm/%s/%s/%s/%s" % (t, "append" if ap else "noappend", pre, prog), "k": "save", "t": t,
@@ -95,6 +97,11 @@ class CliAssembler:
                     out.append({"id": "asm-diag/%s/%s/%s" % (prog, t, pre), "k": "diag", "t": t, "pre": pre, "prog": prog})
         out.append({"id": "asm/name-option/cas", "k": "nameopt", "t": "cas"})
         out.append({"id": "asm/name-option/dsk", "k": "nameopt", "t": "dsk"})
+        for prog in ("named", "namlate", "namlast"):
+            for t in ("cas", "dsk"):
+                out.append({"id": "asm/name-option-and-nam/%s/%s" % (prog, t), "k": "nameboth", "t": t, "prog": prog})
+        out.append({"id": "asm/sequence/cas-same-name", "k": "seqsame", "t": "cas"})
+        out.append({"id": "asm/sequence/dsk-same-name", "k": "seqsame", "t": "dsk"})
         out.append({"id": "asm/all-three", "k": "all3"})
         out.append({"id": "asm/sequence/cas-append-twice", "k": "seq", "t": "cas"})
         out.append({"id": "asm/sequence/dsk-append-twice", "k": "seq", "t": "dsk"})
@@ -234,6 +241,50 @@ class CliAssembler:
             env.fail("C11:saved-image", ("C11",), sig("no-file"))
             return
         self._check_image(env, t, after, [], self._expect_file(run, "unnamed", "given"), "C11:saved-image", ("C11",), sig)
+
+    def k_nameboth(self, env, cell, native):
+        """NAM in the source wins over --name, wherever the NAM statement stands"""
+        t, prog = cell["t"], cell["prog"]
+        target = self._target(t)
+        lines = PROGRAMS[prog]
+        r = run_cli(env, "assembler", {"filename": "prog.asm", "to_" + t: target, "name": "OTHER"}, {"prog.asm": list(lines)})
+        sig = lambda w: (lambda: "asm/name-option-and-nam/%s/%s:%s" % (prog, t, w)) if native else None
+        if r.escape:
+            env.fail("C13:cli-no-traceback", ("C13",), sig("escape:%s" % r.escape))
+            return
+        run = self._assembled(env, lines)
+        after = r.fs.get(target)
+        if after is None:
+            env.fail("C11:saved-image", ("C11",), sig("no-file"))
+            return
+        nam = [l.split()[1] for l in lines if l.split()[:1] == ["NAM"]][0]
+        self._check_image(env, t, after, [], (nam, run.origin if run.origin is not None else 0, list(run.image)), "C11:saved-image", ("C11",), sig)
+
+    def k_seqsame(self, env, cell, native):
+        """appending a file whose name is already on the image keeps the earlier file(s)"""
+        t = cell["t"]
+        target = self._target(t)
+        sig = lambda w: (lambda: "asm/sequence-same-name/%s:%s" % (t, w)) if native else None
+        a1 = ["        NAM ALPHA\n", "        ORG $0E00\n", "        LDA #1\n", "        RTS\n"]
+        b = ["        NAM BETA\n", "        ORG $0E20\n", "        LDB #2\n", "        RTS\n"]
+        a2 = ["        NAM ALPHA\n", "        ORG $0E40\n", "        LDX #$1234\n", "        RTS\n"]
+        fs = {"a1.asm": a1, "b.asm": b, "a2.asm": a2}
+        wants = []
+        for k, src in enumerate(("a1.asm", "b.asm", "a2.asm")):
+            r = run_cli(env, "assembler", {"filename": src, "to_" + t: target, "append": True}, fs)
+            if r.escape:
+                env.fail("C13:cli-no-traceback", ("C13",), sig("escape:%s@%d" % (r.escape, k)))
+                return
+            run = self._assembled(env, fs[src])
+            wants.append(self._expect_file(run, None))
+            after = r.fs.get(target)
+            if after is None:
+                env.fail("C09:history", ("C09",), sig("no-file@%d" % k))
+                return
+            olds = [((n or "")[:8].upper().ljust(8), 2, o, o, im) for (n, o, im) in wants[:-1]]
+            self._check_image(env, t, after, olds, wants[-1], "C09:history", ("C09", "C11"), lambda w, k=k: sig("%s@step%d" % (w, k)))
+            fs = dict(fs)
+            fs[target] = list(after)
 
     def k_all3(self, env, cell, native):
         lines = PROGRAMS["named"]
